@@ -166,6 +166,8 @@ impl TactKeyStore {
     /// assert_eq!(count, 2);
     /// ```
     pub fn load_from_csv(&mut self, content: &str) -> usize {
+        // a byte order mark is not part of the first line
+        let content = content.strip_prefix('\u{feff}').unwrap_or(content);
         let mut count = 0;
 
         for line in content.lines() {
@@ -212,6 +214,8 @@ impl TactKeyStore {
     /// assert_eq!(count, 2);
     /// ```
     pub fn load_from_txt(&mut self, content: &str) -> usize {
+        // a byte order mark is not part of the first line
+        let content = content.strip_prefix('\u{feff}').unwrap_or(content);
         let mut count = 0;
 
         for line in content.lines() {
